@@ -121,6 +121,7 @@ pub fn profile_for(id: &str, rng: &mut Rng) -> Profile {
             p.w_reopen = *rng.pick(&[0, 3]);
         }
         "C15" => {
+            p.ddl_rich = true;
             p.w_ddl = 25;
             p.w_reopen = *rng.pick(&[0, 4]);
             p.constraints = rng.chance(50);
